@@ -9,17 +9,19 @@ def main():
     pid = sys.argv[1]
     checks = sys.argv[2].split(",") if len(sys.argv) > 2 else [pid]
     tier = sys.argv[3] if len(sys.argv) > 3 else "quick"
-    for m in sorted(os.listdir(f"/tmp/mut/{pid}-out")):
-        d = f"/tmp/mut/{pid}-out/{m}"
+    rnd = os.environ.get("ROUND", "")           # e.g. r2: /tmp/mut/<pid>r2-out/m1 is filed as <pid>-m3
+    shift = {"": 0, "r2": 2, "r3": 4}[rnd]
+    for m in sorted(os.listdir(f"/tmp/mut/{pid}{rnd}-out")):
+        d = f"/tmp/mut/{pid}{rnd}-out/{m}"
         if not os.path.isfile(os.path.join(d, "patch.diff")):
             continue
         print(f"===== {pid} {m}")
-        conf = seeded.confirm(d, f"/tmp/mut/{pid}")
+        conf = seeded.confirm(d, f"/tmp/mut/{pid}{rnd}")
         if not conf["confirmed"]:
             print("NOT CONFIRMED")
             continue
         det = seeded.detect(d, checks, tier)
-        out = os.path.join(VERIF, "seeded", f"{pid}-{m}")
+        out = os.path.join(VERIF, "seeded", f"{pid}-m{int(m[1:]) + shift}" if m[1:].isdigit() else f"{pid}-{m}")
         os.makedirs(out, exist_ok=True)
         shutil.copy(os.path.join(d, "patch.diff"), out)
         shutil.copy(os.path.join(d, "demo.py"), out)
